@@ -2002,3 +2002,65 @@ def r2_16(rep):
         ok = direct or (via_filter and neg_in_filter)
         rep.check(ok, "tail-padding:never-for-zero-sized", "not reached for an item without sized members" if ok else
                   "reached for a zero-sized item too: its `_address` byte is emitted after the padding", cg.loc(c))
+
+
+@RULES.rule("R2.17", "a class without sized members still gets the alignment (and tail) its layout asks for", floor=1)
+def r2_17(rep):
+    """C++ gives an empty class one byte, or more under `alignas`: `struct alignas(8) E {};` has size 8 and alignment 8.  The bindings
+    stand for it with `_address: u8`; the step that pads the struct and decides `#[repr(align(N))]` has to run for it as for any other
+    struct (before the fix it was skipped for every zero-sized record: size 1, alignment 1).  On the reach condition of the
+    struct-branch `requires_explicit_align` in `CompInfo::codegen`: with "zero-sized" and "got an `_address` byte" true (not opaque,
+    not a union, layout known) it is reached whatever the remaining tests say."""
+    import itertools
+    from c08 import _reach, _atoms, _ev
+    prog = rep.prog
+    cg = rep.need(prog.impl_fn("codegen::CodeGenerator", "ir::comp::CompInfo", "codegen"), "<CompInfo as CodeGenerator>::codegen")
+    calls = [c for c in cg.calls(lambda n: n["k"] == "MCall" and n.get("name") == "requires_explicit_align")]
+    rep.need(calls, "requires_explicit_align in CompInfo::codegen")
+    # the local that records that the `_address` byte was emitted: assigned `true` next to the `_address` quote
+    addr = None
+    import qq
+    for q in qq.quote_sites(cg):
+        if "_address" in q.tokens:
+            blk = next((a for a in cg.ancestors(q.root) if a["k"] == "Block"), None)
+            for a in cg.ancestors(q.root):
+                if a["k"] != "Block":
+                    continue
+                for n in cg.walk(a):
+                    if n["k"] == "Assign" and strip(n["l"]).get("k") == "Local" and strip(n["r"]).get("k") == "Lit" and strip(n["r"]).get("v") is True:
+                        addr = strip(n["l"])
+                if addr is not None:
+                    break
+    struct_calls = []
+    for c in calls:
+        f = _reach(cg, c)
+        atoms = sorted(_atoms(f, set()))
+        union_atoms = [a for a in atoms if "CompKind::Union" in a]
+        # the struct branch is the one reached with "is a union" false
+        fixed = {}
+        for a in atoms:
+            if "CompKind::Union" in a:
+                fixed[a] = False
+            elif "IsOpaque>::is_opaque" in a or "is_forward_declaration" in a or "has_non_type_template_params" in a:
+                fixed[a] = False
+            elif "is_zero_sized" in a:
+                fixed[a] = True
+            elif a.startswith("let ") and "Type::layout" in a:
+                fixed[a] = True
+            elif addr is not None and a == "local:%s" % addr["name"]:
+                fixed[a] = True
+        free = [a for a in atoms if a not in fixed]
+        vals = [_ev(f, dict(zip(free, vs), **fixed)) for vs in itertools.product((False, True), repeat=len(free))]
+        # is this the struct branch?  (the union branch is unreachable with is-union false)
+        f_union = dict(fixed)
+        for a in union_atoms:
+            f_union[a] = True
+        reach_as_union = any(_ev(f, dict(zip(free, vs), **f_union)) for vs in itertools.product((False, True), repeat=len(free)))
+        if reach_as_union and not any(vals):
+            continue
+        struct_calls.append((c, all(vals), free))
+    rep.need(struct_calls or calls, "the struct-branch alignment decision")
+    ok = any(allv for _, allv, _ in struct_calls)
+    rep.check(ok, "empty-class-alignment-decided", "the alignment decision is reached for a zero-sized record that got an `_address` byte" if ok else
+              "the padding / explicit-alignment step is never reached for a zero-sized record: `struct alignas(8) E {};` becomes a one-byte, "
+              "one-aligned struct", cg.loc(calls[0]))
